@@ -1613,10 +1613,13 @@ func (f *File) WriteTo(w io.Writer) (written int64, err error) {
 			return written, errors.New("sftp.File.WriteTo: unexpectedly closed channel")
 		}
 
-		// Because writes are serialized, this will always be the last successfully read byte.
-		f.offset = packet.off + int64(len(packet.b))
-
 		if len(packet.b) > 0 {
+			// Because writes are serialized, this will always be the last successfully read byte.
+			// A packet without data (EOF, or an error) must not move the offset:
+			// its off lies one whole chunk after the previous request,
+			// which is beyond the end of the file when the last data chunk was short.
+			f.offset = packet.off + int64(len(packet.b))
+
 			n, err := w.Write(packet.b)
 			written += int64(n)
 			if err != nil {
